@@ -1,7 +1,7 @@
 (** C12 — malformed AML is rejected with an error, never a crash, hang or stray pointer.
     Statements only; every proof is [exact <lemma>] (Aml/LexProofs.v). *)
 From Coq Require Import NArith List.
-From FF Require Import Lib.Word Gen.Consts_device_acpi_aml Aml.Stream Aml.Lex Aml.LexProofs.
+From FF Require Import Lib.Word Gen.Consts_device_acpi_aml Aml.Stream Aml.Lex Aml.LexProofs Aml.Tree Aml.TreeSpec Aml.Parser Aml.ParserProofs Aml.ParserProofsTop.
 Import ListNotations.
 Local Open Scope N_scope.
 
@@ -34,3 +34,40 @@ Theorem C12_lex_slices_inside : forall r s ok r1, reader_wf r -> no_wrap r ->
   slice_inside (r_len r) s /\ slice_inside (r_pkgEnd r) s /\ (forall p, s_ptr s = Some p -> p = r_offset r).
 Proof. exact lex_slices_inside. Qed.
 Print Assumptions C12_lex_slices_inside.
+
+(** ---- the whole parser (Aml/Parser.v: every pass of ParseAML) ---- *)
+
+(** [parse_total], the FULL statement of C12 over the model.  [load payloads] creates the default scopes and
+    runs ParseAML on the images (36-byte header + payload) one after the other with fuel [parse_fuel] = 64 + 8 * length,
+    linear in the input; class 0 = success, 1 = errParsingAML, 2 = Go panic, 3 = fuel exhausted.
+    For every sequence of byte strings: the outcome is success or the parse error, every []byte the pool refers to
+    lies inside the image it aliases, and the pool is a well-formed tree (C13's relation [R] for some forest). *)
+Definition C12_full_parse_total : Prop :=
+  forall payloads, Forall payload_ok payloads ->
+    let '(class, t, imgs) := load payloads in
+    (class = 0 \/ class = 1) /\ pool_ok imgs t /\ exists g, R t g.
+
+(** [parse_total_partial] (1): the stray-pointer conjunct, for ALL passes and every input.  Whenever the parser
+    returns - success or parse error - every []byte stored in the object pool (strings, names, buffers, byte lists,
+    relocated name tails) lies inside the image of the table it aliases.  Missing w.r.t. the full statement: that the
+    outcome is never a panic / fuel exhaustion, and the tree relation R (both are covered by the model-vs-implementation
+    agreement with explicit Panic / OutOfFuel outcomes and by the independent link checker of the harness). *)
+Theorem C12_parse_total_partial_slices : forall payloads class t imgs,
+  Forall payload_ok payloads ->
+  load payloads = (class, t, imgs) -> class = 0 \/ class = 1 -> pool_ok imgs t.
+Proof. exact parse_slices_inside. Qed.
+Print Assumptions C12_parse_total_partial_slices.
+
+(** [parse_total_partial] (2): one ParseAML call from any pool whose slices are inside the earlier images: the slices
+    stay inside, the reader still satisfies its invariant (pkgEnd <= length of the table) and still reads the same
+    table - with [C12_reader_safe]: no pass reads a byte outside the table. *)
+Theorem C12_parse_total_partial_reader : forall tree earlier handle data b s,
+  image_ok data -> pool_ok earlier tree -> parseAML tree earlier handle data = Ok (b, s) ->
+  pool_ok (earlier ++ [data]) (p_tree s) /\ reader_wf (p_r s) /\ r_data (p_r s) = data.
+Proof. exact parseAML_inv. Qed.
+Print Assumptions C12_parse_total_partial_reader.
+
+(** the byte-list bounds check (commit 984f446) is what makes the stored list lie inside the current package *)
+Theorem C12_bytelist_inside : forall tbls obj dataLen, hoare tbls (parseByteList obj dataLen) (fun _ => True).
+Proof. exact hoare_parseByteList. Qed.
+Print Assumptions C12_bytelist_inside.
